@@ -149,6 +149,9 @@ def units(tier):
     for m in mods:
         us.append(UniqueUnit(m, False))
         us.append(UniqueUnit(m, True))
+    from .dedup import DedupKeyUnit
+    for m in mods:
+        us.append(DedupKeyUnit(m))      # genhkl_all == disjoint union of the families: no equivalent may collapse into another
     return us
 
 
